@@ -168,6 +168,11 @@ class Run:
             os.makedirs(EVIDENCE, exist_ok=True)
             with open(os.path.join(EVIDENCE, "%s.json" % self.prop), "w") as f:
                 json.dump(ev, f, indent=1, default=str)
+        elif not self.replay:
+            from . import build as _b
+            os.makedirs(os.path.join(_b.BUILD, "scratch-evidence"), exist_ok=True)
+            with open(os.path.join(_b.BUILD, "scratch-evidence", "%s.json" % self.prop), "w") as f:
+                json.dump(ev, f, indent=1, default=str)
         status = "held"
         code = 0
         if self.violations:
